@@ -43,3 +43,120 @@ for _t, _txt in _TREES.items():
       assumptions=['comparison-only code: exact for finite doubles', 'GAUSS_MODE = 1 (its initial value)'],
       stubs=['Node::_threshFromPropcum -> arbitrary threshold within the inherited bounds of the node orientation (TEST for a leaf)',
              'Node::_transform -> identity (only feeds the _cdf* fields, not read by the kernel)'])
+
+
+# ---- C13.c law_gaussian_between_bounds: bounded Gaussian draw (exp/log uninterpreted + order axioms)
+def _explog_opts(symex, z3):
+    """exp / log as uninterpreted functions.  Every axiom is a true statement about the real functions,
+    instantiated on the application terms present (each new application is paired with the earlier ones):
+      exp(x) > 0;  x < 0 => exp(x) < 1, x > 0 => exp(x) > 1, x == 0 => exp(x) == 1;
+      x < y => exp(x) < exp(y)  (strict monotonicity; equality is congruence);
+      t < 1 => log(t) < 0, t > 1 => log(t) > 0, t == 1 => log(t) == 0;  s < t => log(s) < log(t)   (for s, t > 0);
+      log(exp(y)) == y in its order form: for t > 0, t < exp(y) => log(t) < y, t > exp(y) => log(t) > y, t == exp(y) => log(t) == y."""
+    exps, logs = [], []
+
+    def order(x, y, fx, fy):
+        return [z3.Implies(x < y, fx < fy), z3.Implies(x > y, fx > fy)]
+
+    def inv(t, lt, y, ey):
+        return [z3.Implies(z3.And(t > 0, t < ey), lt < y), z3.Implies(t > ey, lt > y), z3.Implies(t == ey, lt == y)]
+
+    def exp_axioms(f, args, app):
+        x = args[0]
+        ax = [app > 0, z3.Implies(x < 0, app < 1), z3.Implies(x > 0, app > 1), z3.Implies(x == 0, app == 1)]
+        for y, ey in exps:
+            ax += order(x, y, app, ey)
+        for t, lt in logs:
+            ax += inv(t, lt, x, app)
+        exps.append((x, app))
+        return ax
+
+    def log_axioms(f, args, app):
+        t = args[0]
+        ax = [z3.Implies(z3.And(t > 0, t < 1), app < 0), z3.Implies(t > 1, app > 0), z3.Implies(t == 1, app == 0)]
+        for s, ls in logs:
+            ax += [z3.Implies(z3.And(s > 0, s < t), ls < app), z3.Implies(z3.And(t > 0, t < s), app < ls)]
+        for y, ey in exps:
+            ax += inv(t, app, y, ey)
+        logs.append((t, app))
+        return ax
+    return {'libm_axioms': {'exp': exp_axioms, 'log': log_axioms}}
+
+
+def _exp_native(x):
+    import math
+    from fractions import Fraction
+    try:
+        return Fraction(math.exp(float(x)))   # concrete arguments (validation runs): the value the native libm returns
+    except OverflowError:
+        return None
+
+
+def _log_native(x):
+    import math
+    from fractions import Fraction
+    if x < 0:
+        return None
+    if x == 0:
+        return Fraction(-10) ** 300           # stand-in for -inf (only compared with finite values)
+    return Fraction(math.log(float(x)))
+
+
+_GBB_STUBS = ['law_uniform(mini, maxi) -> mini + u*(maxi-mini), u the next element of an array of arbitrary reals in [0,1) drawn up front; '
+              'a call beyond the 3*VF_NREJ draws of VF_NREJ rejection iterations ends the path (acceptance assumed by then)',
+              'exp/log: uninterpreted functions + order axioms (symex libm_axioms, see _explog_opts); sqrt exact (r >= 0, r*r == x)']
+_GBB_ASSUME = ['real-arithmetic reading: no rounding, no underflow of exp (IEEE: exp underflow makes total == 0 and the function returns a sub-interval start, which is in bounds; '
+               'a proposal can leave its sub-interval by a rounding error of log(exp(.)): outside the claim)',
+               'exp, log: the axioms of _explog_opts, all true of the real functions',
+               'the rejection loop carries no state from one iteration to the next (tables written before the loop only), so the value returned is the proposal of an '
+               'iteration with arbitrary draws that was accepted; VF_NREJ = 2 executes a rejected iteration before it as a cross-check',
+               'uniform draws in [0,1) (what law_uniform(0,1) documents)']
+for _mode, _mtxt, _mass in ((0, 'both bounds present, arbitrary reals binf < bsup (|.| <= 1e29)', 'binf < bsup'),
+                            (1, 'lower bound only (bsup = TEST), arbitrary real binf (|.| <= 1e29)', 'bsup absent'),
+                            (2, 'upper bound only (binf = TEST), arbitrary real bsup (|.| <= 1e29)', 'binf absent')):
+    for _nrej, _tiers in ((1, ('quick', 'thorough')), (2, ('thorough',))):
+        K('C13.c.%s%s' % (('ab', 'a', 'b')[_mode], '' if _nrej == 1 else '.r2'), property='C13', engine='symex', harness='C13/bounds.cpp', entry='k_between',
+          tus=['src/Basic/Law.cpp', 'src/Basic/Utilities.cpp'], defines={'all': {'VF_MODE': _mode, 'VF_NREJ': _nrej}}, tiers=_tiers,
+          symex_opts=_explog_opts, symex={'libm_exact': {'exp': _exp_native, 'log': _log_native}},
+          bounds={'quick': '%s; %d iteration(s) of the rejection loop with arbitrary uniform draws in [0,1), acceptance assumed by the last' % (_mtxt, _nrej)},
+          timeout_ms={'quick': 100000, 'thorough': 600000}, validate={'quick': 30, 'thorough': 60},
+          what='law_gaussian_between_bounds (with FFFF): value returned within the bounds present; sub-interval table read in bounds (selection loop stops inside the table: cumulated weights end at total/total)',
+          out='termination of the rejection loop; the law of the value; floating rounding / underflow of exp, log, sqrt',
+          assumptions=_GBB_ASSUME + [_mass], stubs=_GBB_STUBS)
+
+# ---- C13.e bounds handed to the bounded draw by the multivariate Gibbs samplers
+_GIB_DB = 'Db::getLocVariable(const ELoc&, int iech, int item) const -> harness tables of arbitrary lower / upper bounds (TEST = absent) indexed by (sample, item); role recognised by the address of ELoc::L / ELoc::U; any other (role, sample, item) is counted and asserted absent'
+for _kind, _cls, _tus, _w in (
+        (0, 'GibbsMulti', ['src/Gibbs/GibbsMulti.cpp'], 'GibbsMulti::getSimulate (used by GibbsUMulti and GibbsMMulti)'),
+        (1, 'GibbsMultiMono', ['src/Gibbs/GibbsMultiMono.cpp'], 'GibbsMultiMono::getSimulate (used by GibbsUMultiMono and GibbsUPropMono; second variable linked to the first through rho)')):
+    K('C13.e.sim.%s' % ('multi' if _kind == 0 else 'mono'), property='C13', engine='symex', harness='C13/gibbs_sim.cpp',
+      entries=['k_sim_sel_gs1', 'k_sim_nosel_gs0'], tus=_tus + ['src/Gibbs/AGibbs.cpp', 'src/Basic/Utilities.cpp'],
+      defines={'all': {'VF_KIND': _kind}}, symex={'sqrt_memo_sym': True},   # sqrt(1 - rho*rho) of the code and of the reference: one algebraic unknown
+      bounds={'quick': '%s::getSimulate, one call: 2 GS x 2 variables, 2 active samples (with arbitrary ranks into a Db of 3 samples / without selection), arbitrary (variable, active sample); arbitrary bounds tables (each bound present or absent, lower <= upper, |.| <= 1e6), mean |.| <= 1e6, st.dev. in [1e-3, 1e3], |rho| < 0.999, iteration / burn-in arbitrary with the decay finished or off' % _cls},
+      timeout_ms={'quick': 100000, 'thorough': 600000}, validate={'quick': 40, 'thorough': 80},
+      what=_w + ', AGibbs::getSampleRank, getRank, _getBoundsDecay, FFFF: bounds handed to law_gaussian_between_bounds == (stored bounds of the own (absolute sample, item) - mean)/st.dev., absent stays absent, unbounded draw iff no bound; value = yk + sk*draw; draw within the bounds received => gaussian value within the stored bounds',
+      out='the bounded draw itself (C13.c); bounds relaxed on purpose during the burn-in decay; magnitudes for which a centred / scaled bound exceeds 1e30 (read as absent by FFFF); rounding (real-arithmetic reading)',
+      assumptions=['real-arithmetic reading', 'stored bounds ordered (lower <= upper) as AGibbs::_boundsCheck requires', 'st.dev. > 0', 'decay off or iteration past the burn-in (the decay widens the bounds on purpose)'],
+      stubs=[_GIB_DB, 'law_gaussian_between_bounds(binf, bsup) -> records the bounds received, returns an arbitrary real',
+             'law_gaussian(mean, sigma) -> mean + sigma * the same arbitrary real',
+             'sampler object is raw storage (getSimulate called non-virtually): _npgs, _nvar, _nburn, _niter, _flagOrder, _flagDecay, _optionStats, _ranks, _db (never dereferenced), _rho initialised by the harness'])
+
+_SW_STUBS = [_GIB_DB, 'GibbsMulti::getSimulate -> records its arguments, returns an arbitrary real (the real one: C13.e.sim.multi)', 'OptDbg::query -> false (no printing)',
+             'sampler object is raw storage with the class vtable: _npgs, _nvar, _nburn, _niter, _flagOrder, _flagDecay, _optionStats, _ranks, _db (never dereferenced), _model = null initialised by the harness']
+for _kind, _cls, _tus, _extra_stub, _extra_what in (
+        (0, 'GibbsUMulti', ['src/Gibbs/GibbsUMulti.cpp'],
+         ['GibbsUMulti::_covmat: arbitrary real matrix with positive diagonal (the inverse covariance matrix; its computation is outside)'],
+         'GibbsUMulti::update, _getVariance, _getEstimate, _getSize'),
+        (1, 'GibbsMMulti', ['src/Gibbs/GibbsMMulti.cpp'],
+         ['GibbsMMulti::_getVariableNumber -> nvar; _getWeights -> nothing; _getVariance(icol) -> arbitrary positive value per column; _getEstimate(ipgs, icol, y) -> arbitrary value per column (sparse kriging weights outside); column rank asserted within nvar*nact'],
+         'GibbsMMulti::update, _getColumn')):
+    for _nvar, _nact, _tiers in ((2, 2, ('quick', 'thorough')), (2, 3, ('thorough',))):
+        K('C13.e.%s.%d%d' % ('u' if _kind == 0 else 'm', _nvar, _nact), property='C13', engine='symex', harness='C13/gibbs.cpp', entries=['k_gibbs_gs1', 'k_gibbs_gs0'],
+          tus=_tus + ['src/Gibbs/GibbsMulti.cpp', 'src/Gibbs/AGibbs.cpp', 'src/Basic/Utilities.cpp'],
+          defines={'all': {'VF_KIND': _kind, 'VF_NVAR': _nvar, 'VF_NACT': _nact}}, tiers=_tiers,
+          bounds={'quick': '%s, one sweep: 2 GS x %d variables (GS rank 1, then 0), %d active samples mapped by arbitrary ranks into a Db of %d samples; arbitrary bounds tables (each bound present or absent, lower <= upper), arbitrary prior gaussian values, arbitrary inverse covariance matrix with positive diagonal / arbitrary positive variances' % (_cls, _nvar, _nact, _nact + 1)},
+          timeout_ms={'quick': 100000, 'thorough': 600000}, validate={'quick': 30, 'thorough': 60},
+          what=_extra_what + ', AGibbs::getRank, getSampleRank, _getSampleRankNumber, _isConstraintTight, FFFF, isEqual: tight constraint -> the bound, no simulation; otherwise exactly one getSimulate with icase = ivar + nvar*ipgs, the ranks of the (GS, variable, sample) being updated, the conditional mean / st.dev. of its own equation, result stored at y[icase][iact]; other GS untouched',
+          out='getSimulate (C13.e.sim.*) and the bounded draw (C13.c); computation of the inverse covariance matrix / sparse weights; statistics (_updateStats, off); rounding of the sums of products',
+          assumptions=['real-arithmetic reading', 'stored bounds ordered (lower <= upper) as AGibbs::_boundsCheck requires', 'variance of estimation > 0'],
+          stubs=_SW_STUBS + _extra_stub)
